@@ -6,6 +6,12 @@
 //!   calib_gen file F.sam     run a hand-written (or minimised) program through all executors;
 //!                            modules are separated by lines `//// module <dotted.name>` (default: one module `Main`)
 //!   calib_gen time [N]       generation speed only
+//!   calib_gen min SEED|F KIND [substr]   delta-debug (classes, members, lines) a seed / file while the failure stays;
+//!                            KIND: compile | wasm-invalid | ts-erase | ref-wasm | ref-ts | wasm-ts (substr must occur in the message / diff);
+//!                            CALIB_GEN_TOKENS=1 adds a token level pass
+//!   calib_gen dump-ts F.sam  print the emitted TypeScript (WAT=1: the emitted wat) of a program file
+//!   env: CALIB_GEN_DUMP=path (per seed status + features, tab separated), CALIB_GEN_FEW_DIFFS=1 (4 diffs per group),
+//!        CALIB_GEN_PANICS=1 (do not silence the panic messages of the compiler)
 //!
 //! Exit code 0 = generator calibrated (100% accepted, no Harness ending, no ub flags where excluded),
 //! 1 = a deviation. Disagreements between executors do NOT make the exit code non-zero (they are findings).
@@ -200,7 +206,51 @@ fn ub_string(t: &Trace) -> String {
 }
 
 /// coarse automatic grouping of a disagreement (refined by hand in the report)
+/// feature based hints towards the likely cause of a disagreement
+fn hints(c: &Case) -> String {
+  let f = |k: &str| c.features.contains(k);
+  let mut h = Vec::new();
+  if f("enum:single-payload-self") || f("enum:single-payload-mutual") {
+    h.push("rec-enum");
+  }
+  if f("enum:one-variant-one-payload") {
+    h.push("1-variant-enum");
+  }
+  if f("vec-int-wide") {
+    h.push("vec-wide");
+  }
+  if f("overflow-possible") {
+    h.push("overflow");
+  }
+  if f("int-div") {
+    h.push("div");
+  }
+  if f("str:nasty") {
+    h.push("nasty-str");
+  }
+  if f("std.option.valueMap") {
+    h.push("valueMap");
+  }
+  format!("[{}]", h.join(","))
+}
+
 fn classify(c: &Case, a: &Trace, b: &Trace) -> String {
+  let base = classify0(c, a, b);
+  let relevant: Vec<&str> = if base.starts_with("number") {
+    vec!["rec-enum", "1-variant-enum", "vec-wide", "overflow", "div"]
+  } else if base.starts_with("string") {
+    vec![]
+  } else if base.contains("SyntaxError") || base.contains("ReferenceError") {
+    vec!["nasty-str", "valueMap"]
+  } else {
+    vec!["rec-enum", "1-variant-enum"]
+  };
+  let h = hints(c);
+  let kept: Vec<&str> = h.trim_matches(|ch| ch == '[' || ch == ']').split(',').filter(|x| relevant.contains(x)).collect();
+  if kept.is_empty() { base } else { format!("{base} [{}]", kept.join(",")) }
+}
+
+fn classify0(c: &Case, a: &Trace, b: &Trace) -> String {
   let mut first: Option<(String, String)> = None;
   for i in 0..a.lines.len().max(b.lines.len()) {
     let (x, y) = (a.lines.get(i), b.lines.get(i));
@@ -220,8 +270,11 @@ fn classify(c: &Case, a: &Trace, b: &Trace) -> String {
     }
     Some((x, y)) => {
       let esc = |s: &str| s.contains('\\') || s.contains('\n') || s.contains('\t') || s.contains('\0');
+      let non_ascii = |s: &str| !s.is_ascii();
       if esc(&x) || esc(&y) {
         "string-escape".to_string()
+      } else if (non_ascii(&x) || non_ascii(&y)) && strip_non_ascii(&x) == strip_non_ascii(&y) {
+        "string-non-ascii".to_string()
       } else if c.features.contains("vec-int-wide") && differ_in_number(&x, &y) {
         "number (vec-int-wide program)".to_string()
       } else if differ_in_number(&x, &y) {
@@ -235,8 +288,13 @@ fn classify(c: &Case, a: &Trace, b: &Trace) -> String {
   }
 }
 
+fn strip_non_ascii(s: &str) -> String {
+  s.chars().filter(|c| c.is_ascii()).collect()
+}
+
 fn kind(e: &Ending) -> String {
   match e {
+    Ending::Fault { kind, at } if kind == "SyntaxError" && at.contains("'default'") => "Fault(SyntaxError: reserved word default)".to_string(),
     Ending::Fault { kind, .. } => format!("Fault({kind})"),
     Ending::Panic(_) => "Panic".to_string(),
     Ending::Harness(_) => "Harness".to_string(),
@@ -676,6 +734,32 @@ fn main() {
     }
     let _ = std::fs::write(path, out);
   }
+  for c in &cases {
+    let norm = |e: &str| -> String {
+      if e.contains("Option::unwrap") {
+        "compiler panic: Option::unwrap on None".to_string()
+      } else if e.contains("failed to find name `$any`") {
+        "compiler panic: wat has unknown type $any".to_string()
+      } else if e.contains("unknown func") {
+        "compiler panic: wat calls an unknown function".to_string()
+      } else if e.contains("unknown type") {
+        "compiler panic: wat has an unknown type".to_string()
+      } else {
+        format!("compile: {}", e.chars().take(120).collect::<String>())
+      }
+    };
+    if let Some(e) = &c.compile_err {
+      groups.entry(norm(e)).or_default().push((c.seed, e.chars().take(200).collect()));
+    }
+    if let Some(e) = &c.wasm_invalid {
+      let k = e.split(" (at offset").next().unwrap_or("").to_string();
+      groups.entry(format!("wasm does not validate: {k}")).or_default().push((c.seed, e.clone()));
+    }
+    if let Some(e) = &c.erase_err {
+      let k: String = e.split(" at line").next().unwrap_or("").to_string();
+      groups.entry(format!("emitted TS is not lexable/erasable: {k}")).or_default().push((c.seed, e.clone()));
+    }
+  }
   let accepted = cases.len() - rejected;
   println!("\n================ calib_gen report ({} seeds) ================", cases.len());
   println!(
@@ -711,7 +795,7 @@ fn main() {
   println!("\ndisagreements: ref!=wasm {n_rw}, ref!=ts {n_rt}, wasm!=ts {n_wt}");
   for (k, v) in &groups {
     println!("\n## {k}: {} seeds: {:?}", v.len(), v.iter().map(|x| x.0).collect::<Vec<_>>());
-    for (seed, d) in v.iter().take(4) {
+    for (seed, d) in v.iter().take(if std::env::var("CALIB_GEN_FEW_DIFFS").is_ok() { 4 } else { usize::MAX }) {
       println!("   seed {seed}: {d}");
     }
   }
